@@ -21,6 +21,8 @@ func main() {
 		cmdWorker(os.Args[2:])
 	case "replay":
 		cmdReplay(os.Args[2:])
+	case "genpool":
+		cmdGenPool(os.Args[2:])
 	default:
 		fmt.Fprintln(os.Stderr, "unknown command")
 		os.Exit(2)
